@@ -20,7 +20,7 @@ ASSUMPTIONS = ['shares are read at the end of the run (values are immutable once
 
 
 def budget(tier):
-    return dict(shards=16, examples=40 if tier == 'quick' else 600)
+    return dict(shards=16, examples=80 if tier == 'quick' else 600)
 
 
 @st.composite
